@@ -490,12 +490,15 @@ def check_offset_provenance(ctx, lib):
                 if not (x[0] == "agg" and x[1] == "tuple"):
                     ok = False
                     continue
+                toks = {y[1].split("::")[-1] for y in x[2][1] if y[0] == "agg"} if len(x[2]) > 1 else set()
                 for p in x[2][0]:
                     idx = p[0] == "field" and p[2] == "0" and p[1][0] == "elem" and p[1][1] == ("field", ("param", 1), "iter")
                     ln = p[0] == "call" and p[1] == "core::str::<impl str>::len" and set(p[2][0]) == {("field", ("param", 1), "expr")}
-                    ok = ok and (idx or ln)
+                    # the end-of-input marker sits at expr.len(), every other token at the index of its first character
+                    ok = ok and ((ln and toks == {"Eof"}) or (idx and "Eof" not in toks))
             ctx.check(ok, rule, f"token-position#{n}", "a token's position is the char_indices() index of its first character (or expr.len() for Eof)", t["span"]["s"])
-        ctx.floor(rule, n, 20, "token push sites")
+        # one push per token kind or one shared push: at least the end marker's and one other
+        ctx.floor(rule, n, 2, "token push sites")
     ln_ = ctx.fn(L + "new", rule=rule)
     if ln_ is not None:
         o = Origins(ln_, lib)
